@@ -23,6 +23,8 @@ Spec (stateless; <hex> = concrete code, `-` = empty)
   spec-at <hex> <pc>           -> ok <hh>
   spec-jump <hex> <dest>       -> accepted | rejected
   spec-sweep <t,t,…|->         -> ok <d,d,…|-> stop=<n> blocked=<0|1>          (t = hh | ?)
+  spec-run <hex> <callvalue> <fuel> -> halt=<stop|invalidjump|underflow|invalidopcode|unsupported|fuel> pc=<n> stack=<hex,…|-> (top first)
+                                  msize=<n> cv=<0|1: CALLVALUE executed> trace=<pc,pc,…> (in execution order)
   spec-all <hex> <k>           -> J … D … A … S …   (same layout as `all`, operands as byte tokens are not available: values)
 -/
 import HalmosVerif.Model.Contract
@@ -218,6 +220,18 @@ def handle (st : St) (line : String) : String × St :=
     | some pc =>
       (s!"ok {natList (Spec.Code.sweep pc)} stop={Spec.Code.sweepStop pc} blocked={if Spec.Code.sweepBlocked pc then 1 else 0}", st)
     | none => ("bad-op", st)
+  | ["spec-run", h, a, b] =>
+    match hexBytes? h, a.toNat?, b.toNat? with
+    | some code, some cv, some fuel =>
+      let r := Spec.Code.runCode code cv fuel
+      let hk := match r.halt with
+        | .stop => "stop" | .invalidJump => "invalidjump" | .underflow => "underflow"
+        | .invalidOpcode => "invalidopcode" | .unsupported => "unsupported" | .outOfFuel => "fuel"
+      let tr := r.st.trace.reverse
+      let usedCv := tr.any fun pc => Spec.Code.byteAt code pc == 0x34
+      let stk := if r.st.stack.isEmpty then "-" else ",".intercalate (r.st.stack.map toHex)
+      (s!"halt={hk} pc={r.st.pc} stack={stk} msize={r.st.msize} cv={if usedCv then 1 else 0} trace={natList tr}", st)
+    | _, _, _ => ("bad-op", st)
   | ["spec-all", h, a] =>
     match hexBytes? h, a.toNat? with
     | some code, some k => (specAll code k, st)
